@@ -104,6 +104,12 @@ func (esc *endpointSliceController) onEventInternal(old, ep *v1.EndpointSlice, e
 		esc.deleteEndpointSlice(ep)
 	} else {
 		if event == model.EventUpdate && old != nil {
+			if oldName := getServiceNamespacedName(old); oldName != namespacedName {
+				// The slice now belongs to another Service (its service-name label was edited). The cache is keyed by the
+				// hostname of the current label, so drop what was stored for the previous one and tell its clients.
+				esc.deleteEndpointSlice(old)
+				esc.pushEDS(esc.c.hostNamesForNamespacedName(oldName), oldName.Namespace)
+			}
 			esc.cleanupRemovedEndpoints(old, ep)
 		}
 		esc.updateEndpointSlice(ep)
